@@ -375,7 +375,7 @@ func allChecks() []CheckSpec {
 			ID: "C06",
 			Harnesses: []HarnessSpec{
 				{Fn: "verifC06AddRemote", Lemma: "public AddRemoteCandidate with every kind of trickled candidate (new host/srflx, duplicate, signalled candidate superseding a peer-reflexive one, TCP-active, nil) preserves the bookkeeping invariant I1-I5 (no pair twice, ids unique/in range/indexed, pairs formed from current candidates of one network type, selected listed, remotes deduplicated/never TCP-active/accepted by the IP filter); a superseded peer-reflexive candidate's pairs keep id, state, flags, priority and the selection",
-					Bounds: "2 local + 1 host + 1 prflx remote, symbolic pair states/flags, selection nil/any, remote IP filter rejecting one symbolic last octet, 6 candidate kinds", MustReach: []string{"filtered", "added", "duplicate", "supersedes-prflx", "ignored", "done"},
+					Bounds: "2 local + 1 host + 1 prflx remote, symbolic pair states/flags, selection nil/any, remote IP filter rejecting one symbolic last octet, 6 candidate kinds", MustReach: []string{"filtered", "added", "duplicate", "supersedes-prflx", "ignored", "mdns-resolved-to-the-prflx-address", "done"},
 					Cfg: func(c *HarnessCfg, tier int) { c.GoRunMatch = "AddRemoteCandidate$1" }},
 				{Fn: "verifC06PrflxThenSignalled", Lemma: "signalled-then-prflx order: an authenticated request from a signalled candidate's address creates no duplicate remote", Bounds: "1+1 candidates, symbolic tie-breaker/priority", MustReach: []string{"done"}},
 				{Fn: "verifC06InboundUnknown", Lemma: "authenticated request from an unknown source: the peer-reflexive candidate passes through the remote IP filter (filtered => nothing changes at all) and the invariant holds",
